@@ -73,7 +73,7 @@ def build(pkg, workdir, overlay, race=False, tags="verif"):
     cmd.append(pkg)
     env = goenv()
     if race:
-        env["CGO_ENABLED"] = "0"
+        env["CGO_ENABLED"] = "1"
     p = subprocess.run(cmd, env=env, cwd=VERIF, capture_output=True, text=True)
     if p.returncode != 0:
         die("harness build failed (tree does not compile under instrumentation?):\n%s" % p.stderr)
